@@ -26,7 +26,7 @@ m = {
     "setup_cmd": "./setup.sh",
     "hooks": {
         "guard": "cfg(kani)",
-        "enable": "cargo kani (sets --cfg kani); env VERIF_GEN_DIR=<scratch dir containing gen.rs> must be set; the driver ./check does both",
+        "enable": "cargo kani (sets --cfg kani) with env VERIF_KANI_DIR=<dir with the proof modules (a copy of /verif/kani)> and VERIF_GEN_DIR=<dir containing gen.rs>; the driver ./check snapshots /repo and /verif/kani and sets both",
         "baseline_off_cmd": "cd /repo && cargo test --workspace --no-fail-fast --offline",
         "source_commits": [c.split()[0] for c in hooks_commits],
         "add_only": True,
@@ -39,7 +39,7 @@ m = {
     ],
     "checks": checks,
     "not_applicable": na,
-    "notes": "See DESIGN.md. Exit 2 of a check = undecided (lost anchor / build error / timeout), never an alarm.",
+    "notes": "See DESIGN.md (section 10 = as built). Exit 2 of a check = undecided (lost anchor / build error / timeout / invariant clause without behavioural witness), never an alarm. known_findings.json: no open finding; three defects repaired by fix: commits 3fab952, 9d1fb6c, 684a9c1 in /repo. The fix commit 684a9c1 necessarily moved two adjacent cfg(kani) hook lines.",
 }
 json.dump(m, open(os.path.join(V, "MANIFEST.json"), "w"), indent=1)
 print("claimed:", [c["property_id"] for c in checks])
